@@ -451,7 +451,7 @@ func (p *Path) visitInstr(fr *frame, instr ssa.Instruction) continuation {
 		fr.env[instr] = fr.get(instr.Tuple).(Tuple)[instr.Index]
 
 	case *ssa.Slice:
-		fr.env[instr] = p.slice(fr, instr, fr.get(instr.X), fr.get(instr.Low), fr.get(instr.High), fr.get(instr.Max))
+		fr.env[instr] = p.slice(fr, instr, fr.get(instr.X), idx64(fr, instr.Low), idx64(fr, instr.High), idx64(fr, instr.Max))
 
 	case *ssa.Return:
 		switch len(instr.Results) {
@@ -586,14 +586,14 @@ func (p *Path) visitInstr(fr *frame, instr ssa.Instruction) continuation {
 		x := fr.get(instr.X)
 		switch x := x.(type) {
 		case []Value:
-			i := p.index(fr, fr.get(instr.Index), len(x))
+			i := p.index(fr, idx64(fr, instr.Index), len(x))
 			fr.env[instr] = &x[i]
 		case *Value:
 			if x == nil {
 				p.goPanic(fr, "invalid memory address or nil pointer dereference")
 			}
 			a := (*x).(Array)
-			i := p.index(fr, fr.get(instr.Index), len(a))
+			i := p.index(fr, idx64(fr, instr.Index), len(a))
 			fr.env[instr] = &a[i]
 		default:
 			engErr("IndexAddr on %T", x)
@@ -603,10 +603,10 @@ func (p *Path) visitInstr(fr *frame, instr ssa.Instruction) continuation {
 		x := fr.get(instr.X)
 		switch x := x.(type) {
 		case Array:
-			fr.env[instr] = copyVal(p.indexRead(fr, []Value(x), fr.get(instr.Index)))
+			fr.env[instr] = copyVal(p.indexRead(fr, []Value(x), idx64(fr, instr.Index)))
 		case string, *SymStr:
 			n := strLen(x)
-			idx := fr.get(instr.Index).(*Term)
+			idx := idx64(fr, instr.Index).(*Term)
 			if idx.IsConst() {
 				i := p.index(fr, idx, n)
 				fr.env[instr] = strAt(x, i)
@@ -618,7 +618,7 @@ func (p *Path) visitInstr(fr *frame, instr ssa.Instruction) continuation {
 		}
 
 	case *ssa.Lookup:
-		fr.env[instr] = p.lookup(fr, instr, fr.get(instr.X), fr.get(instr.Index))
+		fr.env[instr] = p.lookup(fr, instr, fr.get(instr.X), lookupIdx(fr, instr))
 
 	case *ssa.MapUpdate:
 		m := fr.get(instr.Map).(*Map)
@@ -666,7 +666,9 @@ func (p *Path) makeLen(fr *frame, v Value, elem types.Type, what string) int64 {
 		if isNegPossible(t) {
 			// negative sizes panic (handled by caller); only positive sizes allocate
 		}
-		lim := p.allocBudget / es
+		// 64 KiB of slack: the native replay measures allocation with some noise,
+		// so a reported counterexample must be clearly over the budget
+		lim := (p.allocBudget + 65536) / es
 		over = And(Cmp(OpSlt, ConstT(w, uint64(lim)), t))
 		// prefer a counterexample that is far over the budget (so that the native
 		// replay can measure it), fall back to any
@@ -678,7 +680,7 @@ func (p *Path) makeLen(fr *frame, v Value, elem types.Type, what string) int64 {
 		p.assertTerm(Not(over), "alloc-bounded", fmt.Sprintf("%s of %d-byte elements, budget %d bytes, at %s", what, es, p.allocBudget, p.eng.prog.Fset.Position(fr.curInstr.Pos())))
 		p.assertPrefer = nil
 	}
-	n := p.concInt(t, what)
+	n := p.concLen(t, what)
 	if n > 1<<26 {
 		// never actually allocate absurd sizes inside the engine
 		if p.allocBudget >= 0 {
@@ -893,4 +895,29 @@ func posOf(p *Path, instr ssa.Instruction) string {
 	}
 	s := p.eng.prog.Fset.Position(instr.Pos()).String()
 	return strings.TrimPrefix(s, "/repo/")
+}
+
+// idx64 fetches an index / slice bound operand widened to 64 bits according to
+// its static type (negative values become huge unsigned values, so that one
+// unsigned comparison with the length covers both ends).
+func idx64(fr *frame, v ssa.Value) Value {
+	if v == nil {
+		return nil
+	}
+	x := fr.get(v)
+	t, ok := x.(*Term)
+	if !ok || t.W == 64 {
+		return x
+	}
+	if isSigned(v.Type()) {
+		return SExt(t, 64)
+	}
+	return ZExt(t, 64)
+}
+
+func lookupIdx(fr *frame, instr *ssa.Lookup) Value {
+	if _, isMap := instr.X.Type().Underlying().(*types.Map); isMap {
+		return fr.get(instr.Index)
+	}
+	return idx64(fr, instr.Index)
 }
